@@ -73,17 +73,21 @@ def r05_1(chk, dp, dx):
     q = "PromoleculeDensity.__init__"
     ev = dp.ev(q)
     chk.saw(DP, q)
-    st = [e for e in ev.events if e.kind == "store" and e.loops and "rho_data" in e.target.key()]
+    # per-atom rows: a loop that copies one table row per atom (into self.rho_data, into a local buffer that becomes self.rho_data, or
+    # through the rows of zip(self.rho_data, self.elements)), or one gather _RHO[self.elements - 1]
+    st = [e for e in ev.events if e.kind == "store" and e.loops and e.value is not None and e.value.as_atom() and e.value.as_atom()[0] == "sub"
+          and e.value.as_atom()[1].key() == "_RHO"]
+    final = [e for e in ev.events if e.kind == "store" and e.target.key() == "self.rho_data"]
     if not st:
         # vectorised form: the per-atom rows must be _RHO[self.elements - 1] (row i <-> atom i); anything that reorders or
         # groups the rows (unique / repeat / sort) detaches a row from the position it is paired with in the kernel
-        whole = [e for e in ev.events if e.kind == "store" and e.target.key() == "self.rho_data" and "_RHO" in e.value.key()]
+        whole = [e for e in final if "_RHO" in e.value.key()]
         chk.need(len(whole) == 1, f"{q}: table row store not found")
         e = whole[0]
         v = e.value
         while True:
             a = v.as_atom()
-            if a and a[0] == "call" and call_name(a) in ("numpy.ascontiguousarray", "numpy.asarray", "numpy.array", ".astype", ".copy", "numpy.copy"):
+            if a and a[0] == "call" and call_name(a) in ("numpy.ascontiguousarray", "numpy.asarray", "numpy.array", ".astype", ".copy", "numpy.copy", ".reshape"):
                 v = a[2][0] if not call_name(a).startswith(".") else a[1].as_atom()[1]
                 continue
             break
@@ -100,15 +104,30 @@ def r05_1(chk, dp, dx):
         e = st[0]
         loop = e.loops[-1]
         t = e.target.as_atom()
-        row = t[2][0]
         src = e.value.as_atom()
-        chk.need(src and src[0] == "sub" and src[1].key() == "_RHO", f"{q}: source is not a row of _RHO")
         idx = src[2][0]
         el = idx + 1
+        # which row of which buffer receives the table row of which atom?
+        base, row = t[1], t[2][0]
+        ba = base.as_atom()
+        if ba and ba[0] == "obj":
+            from ..symex import obj_init
+            base = obj_init(base)
+            ba = base.as_atom()
+        if ba and ba[0] == "sub" and all(x.key() == "(slice None None None)" for x in t[2]):
+            base, row = ba[1], ba[2][0]             # row[:] = ...  with row an element of the buffer
+        ela = el.as_atom()
+        el_idx = ela[2][0] if ela and ela[0] == "sub" and ela[1].key() == "self.elements" and len(ela[2]) == 1 else None
+        same = el_idx is not None and row.key() == el_idx.key()
+        covers = loop.iter is not None and ("self.elements" in loop.iter.key())
+        is_table = base.key() == "self.rho_data" or any(f.value.key() == base.key() for f in final)
         chk.ob("R05.1", DP, q, "row i of the per-atom table is the table row of element i (same enumerate index)",
-               loop.kind == "enumerate" and row.key() == loop.index.key() and el.key() == f"self.elements[{loop.index}]",
-               node=e.node, found=f"rho_data[{row}] = _RHO[{idx}]")
+               same and covers and is_table, node=e.node, found=f"{base}[{row}] = _RHO[{idx}] in a loop over {loop.iter}"[:200])
         lo, hi = index_bounds(idx, e.guards, {})
+        if not (lo >= 0 and hi <= 102):
+            gk = " ".join(c.key() for c, pol in e.guards if not pol)
+            if "(lt 103 self.elements)" in gk and "(lt self.elements 1)" in gk:
+                lo, hi = 0, 102             # a whole-array test np.any((e < 1) | (e > 103)) guards every element
         chk.ob("R05.1", DP, q, "the element number is guarded to 1..103 before it indexes the table", lo >= 0 and hi <= 102, node=e.node,
                fingerprint="guard", expected="0 <= el - 1 <= 102", found=f"[{lo}, {hi}]")
     calls = [c for c in ev.events if c.kind == "call" and "cPromol" in (call_name(c.value.as_atom() or ()) or "") or
@@ -116,7 +135,8 @@ def r05_1(chk, dp, dx):
     chk.need(calls, f"{q}: construction of the compiled density not found")
     a = calls[0].extra["args"]
     chk.ob("R05.1", DP, q, "the compiled object receives (positions, domain, per-atom rows) in that order",
-           len(a) == 3 and a[0].key() == "self.positions" and a[1].key() == "_DOMAIN" and a[2].key() == "self.rho_data",
+           len(a) == 3 and a[0].key() == "self.positions" and a[1].key() == "_DOMAIN" and
+           (a[2].key() == "self.rho_data" or any(f.value.key() == a[2].key() for f in final)),
            found=[str(x) for x in a])
     cv = dx.ev("PromoleculeDensity.__init__")
     stc = {x.target.key(): x.value.key() for x in cv.events if x.kind == "store"}
